@@ -162,7 +162,18 @@ def merge_states(cx, parent, states, base_len, base_pc, live=None):
         tt += s.toptrace[len(parent.toptrace):]
     m.toptrace = tt
     m.trace = tr + ['join']
-    m.ghost = dict(states[0].ghost)
+    # ghost counters (call counts): conditional on the arm taken
+    gk = set()
+    for s in states:
+        gk |= set(s.ghost.keys())
+    mg = {}
+    for k in gk:
+        ts = [s.ghost.get(k, z3.IntVal(0)) for s in states]
+        if all(t.eq(ts[0]) for t in ts):
+            mg[k] = ts[0]
+        else:
+            mg[k] = ite_chain(conds, ts)
+    m.ghost = mg
     m.stops = list(parent.stops)
     m.pathconds = list(parent.pathconds)
     # assumptions: disjunction of the arms' additions
